@@ -3351,7 +3351,11 @@ def auto_chunks(chunks, shape, limit, dtype, previous_chunks=None):
 
     if previous_chunks:
         # Base ideal ratio on the median chunk size of the previous chunks
-        median_chunks = {a: np.median(previous_chunks[a]) for a in autos}
+        # (at least one element, unless the dimension is empty: zero-size chunks
+        # can pull the median below 1)
+        median_chunks = {
+            a: max(min(1, shape[a]), np.median(previous_chunks[a])) for a in autos
+        }
         result = {}
 
         # How much larger or smaller the ideal chunk size is relative to what we have now
